@@ -204,23 +204,43 @@ def load_known():
         return []
     return [k for k in json.load(open(p)).get("findings", [])]
 
+def bucket(x):
+    """3-octave bucket of a floor(log2) class; None for 'not applicable'"""
+    if x is None or x >= 99999 or x <= -99999: return None
+    return x // 3
+
+def _in(v, spec):
+    if spec in (None, "*"): return True
+    if isinstance(spec, list): return v in spec
+    return v == spec
+
 def match_known(known, prop, head, item, ratio, theta, lin, gap=99999):
+    """a finding covers an out-of-tolerance item only if the event lies inside the finding's input predicate
+    AND the error ratio is within the bound recorded for the finding (possibly a law in theta / pi-theta)"""
     for k in known:
         if k["property"] != prop: continue
-        if k.get("group") not in (None, "*", head["g"].get("k")): continue
-        if k.get("scalar") not in (None, "*", head.get("sc")): continue
-        if k.get("event") not in (None, "*", head["e"]): continue
-        if k.get("item") not in (None, "*", item) and item not in (k.get("items") or []): continue
+        if not _in(head["g"].get("k"), k.get("group")): continue
+        if not _in(head.get("sc"), k.get("scalar")): continue
+        if not _in(head["e"], k.get("event")): continue
+        if not _in(item, k.get("item")): continue
         if "theta_log2" in k and not (k["theta_log2"][0] <= theta <= k["theta_log2"][1]): continue
         if "lin_log2" in k and not (k["lin_log2"][0] <= lin <= k["lin_log2"][1]): continue
-        if "stratum" in k and not re.search(k["stratum"], head.get("st", "")): continue
         if "gap_log2" in k and not (k["gap_log2"][0] <= gap <= k["gap_log2"][1]): continue
+        if "stratum" in k and not re.search(k["stratum"], head.get("st", "")): continue
         bound = k.get("max_ratio_milli", SAT)
-        law = k.get("law")     # error bound that scales with the input: c/theta, c/theta^2, c/(pi-theta)
+        if "envelope" in k:
+            # measured error envelope of the defect: bound per (group, scalar, event, item, theta bucket, gap bucket)
+            key = "|".join([str(head["g"].get("k")), str(head.get("sc")), head["e"], item, str(bucket(theta)), str(bucket(gap))])
+            if key not in k["envelope"]: continue
+            bound = k["envelope"][key]
+        law = k.get("law")     # error bound that scales with the input
         if law == "c/theta": bound = k["c_milli"] * 2.0 ** (-theta)
         elif law == "c/theta2": bound = k["c_milli"] * 2.0 ** (-2 * theta)
+        elif law == "c/theta3": bound = k["c_milli"] * 2.0 ** (-3 * theta)
+        elif law == "c/theta4": bound = k["c_milli"] * 2.0 ** (-4 * theta)
         elif law == "c/gap": bound = k["c_milli"] * 2.0 ** (-gap)
-        if ratio > bound: continue
+        if ratio > bound and ratio < SAT: continue
+        if ratio >= SAT and bound < SAT / 4: continue
         return k
     return None
 
@@ -241,6 +261,7 @@ class Report:
         self.exhaustive = False
         self.known = load_known()
         self.calib = {}
+        self.over = {}
 
     def judge(self, results, judged):
         """results from validate(); judged(event_kind, item) -> bool selects the items this property decides"""
@@ -261,6 +282,8 @@ class Report:
                 ck = (h["e"], gk + "_" + str(h.get("sc")), item, stc[1] if len(stc) > 1 else "", stc[2] if len(stc) > 2 else "")
                 if ratio > self.calib.get(ck, -1): self.calib[ck] = ratio
                 if ratio <= 1000: continue
+                ok = (h["e"], gk, str(h.get("sc")), item, bucket(r["theta"]), bucket(r.get("gap", 99999)))
+                if ratio > self.over.get(ok, 0): self.over[ok] = ratio
                 k = match_known(self.known, self.prop, h, item, ratio, r["theta"], r["lin"], r.get("gap", 99999))
                 if k is not None:
                     c = self.known_hits.setdefault(k["id"], [0, 0, k]); c[0] += 1; c[1] = max(c[1], ratio)
@@ -299,6 +322,8 @@ class Report:
         os.makedirs(os.path.join(CACHE, "calib"), exist_ok=True)
         with open(os.path.join(CACHE, "calib", "%s_%s.json" % (self.prop, self.tier)), "w") as f:
             json.dump([list(k) + [v] for k, v in sorted(self.calib.items())], f)
+        with open(os.path.join(CACHE, "calib", "%s_%s_seed%d_over.json" % (self.prop, self.tier, self.seed)), "w") as f:
+            json.dump([list(k) + [v] for k, v in sorted(self.over.items(), key=str)], f)
         with open(os.path.join(ROOT, "evidence", self.prop + ".json"), "w") as f:
             json.dump(ev, f, indent=1)
         print("%s %s: %d events, %d cells, states=%d, %d violations, %d known-finding events, %.0fs" %
